@@ -3110,6 +3110,12 @@ fn parse_fake_keys(exprs: &[&Vec<SExpr>], s: &mut ParserState) -> Result<()> {
             };
             let action = parse_action(action, s)?;
             let idx = s.virtual_keys.len();
+            if idx >= KEYS_IN_ROW {
+                bail_expr!(
+                    key_name_expr,
+                    "Maximum number of fake keys is {KEYS_IN_ROW}"
+                );
+            }
             log::trace!("inserting {key_name}->{idx}:{action:?}");
             if s.virtual_keys
                 .insert(key_name.clone(), (idx, action))
@@ -3153,6 +3159,12 @@ fn parse_virtual_keys(exprs: &[&Vec<SExpr>], s: &mut ParserState) -> Result<()> 
             };
             let action = parse_action(action, s)?;
             let idx = s.virtual_keys.len();
+            if idx >= KEYS_IN_ROW {
+                bail_expr!(
+                    key_name_expr,
+                    "Maximum number of virtual keys is {KEYS_IN_ROW}"
+                );
+            }
             log::trace!("inserting {key_name}->{idx}:{action:?}");
             if s.virtual_keys
                 .insert(key_name.clone(), (idx, action))
